@@ -1,6 +1,21 @@
-"""C02 — container family (writer origin)."""
-from . import containers
+"""C02 — a box stream equals the lookups inside the box, for every kind of tile source: the five container readers
+(spec/Container.tla, StreamFails), the converting reader (Converter.tla, clause stream) and pipeline operations incl.
+nested overlays and filter chains (Pipeline.tla, clauses stream / stream_sem)."""
+from . import common as C
+from . import containers, pipelines, c06
 
 
 def run(tier, seed, replay):
-    return containers.run_family("C02", tier, seed, replay)
+    run = C.Run("C02", tier, seed, "model_checking")
+    containers.run_family("C02", tier, seed, replay, run=run, finish=False)
+    stages = [("mc/MC_C08.tla", "mc/MC_C08_three.cfg"), ("mc/MC_C08.tla", "mc/MC_C08_nested.cfg"),
+              ("mc/MC_C09.tla", "mc/MC_C09_%s.cfg" % tier)]
+
+    def nontrivial(c):
+        return len(c["sources"]) >= 2 and c["tree"]["op"] != "leaf"
+    pipelines.run_pipes("C02", tier, seed, replay, stages,
+                        "pipeline operations: overlays of 3 sources (flat and nested: the inner overlay announces the hull of its sources), "
+                        "filter_zoom / filter_bbox chains over a leaf or an overlay; converting reader: every 8th (thorough: every) "
+                        "conversion case of MC_C06; only the stream clauses are collected here", nontrivial, run=run, finish=False)
+    c06.converter_stream_stage(run, "C02", tier, replay, 1 if tier == "thorough" else 8)
+    return run.finish()
